@@ -182,6 +182,15 @@ def _unwrap_stream(  # noqa: PLR0911  # TODO: cleanup the return value of this.
         # TODO: Test streams and return first that seems to be playable
         new_uri = uris[0]
         logger.debug("Parsed playlist (%s) and found new URI: %s", uri, new_uri)
-        uri = Uri(urllib.parse.urljoin(uri, new_uri))
+        try:
+            uri = Uri(urllib.parse.urljoin(uri, new_uri))
+        except ValueError as exc:
+            logger.info(
+                "Unwrapping stream from URI (%s) failed: invalid URI %r in playlist: %s",
+                original_uri,
+                new_uri,
+                exc,
+            )
+            return None, None
 
     return None, None
